@@ -116,7 +116,9 @@ def get_type_graph(t: type) -> graphlib.TopologicalSorter[TypeNode]:
     while stack:
         parent = stack.popleft()
         parent_unwrapped = inspection.unwrap(parent.type)
-        if inspection.isliteral(parent_unwrapped):
+        if inspection.isliteral(parent_unwrapped) or inspection.isunresolvable(
+            parent_unwrapped
+        ):
             graph.add(parent)
             continue
 
